@@ -251,4 +251,46 @@ def canon (k : Nat) : Binding LockId Var CLabel := { lock := id, var := id, upd 
 
 abbrev CMicro := Micro LockId Var CLabel
 
+/-! ## Concrete values and updates (used by the driver to enumerate outcomes, and by examples) -/
+
+/-- a value is a finite map `Nat ↦ Nat`; a number `n` is the map `{0 ↦ n}` -/
+abbrev CVal := List (Nat × Nat)
+
+def CVal.num (t : CVal) : Nat := (t.lookup 0).getD 0
+def CVal.has (t : CVal) (k : Nat) : Bool := (t.lookup k).isSome
+def CVal.without (t : CVal) (k : Nat) : CVal := t.filter (fun e => e.1 != k)
+
+/-- the updates the library's stores perform -/
+inductive Upd
+  | add (a : Nat)        -- `x += a`: adds to the value the thread LOADED
+  | set (a : Nat)        -- `x = a`
+  | ensure (k c : Nat)   -- `if k not in <table as looked at>: table[k] = c`
+  | del (k : Nat)        -- `if k in <table as looked at>: del table[k]`
+  | clear                -- `x = {}`
+  | ins (k c : Nat)      -- `table[k] = c`
+  | rem (k : Nat)        -- `del table[k]`
+  | keep                 -- a store to a cell nobody observes
+deriving DecidableEq, Repr
+
+def apU : Upd → CVal → CVal → CVal
+  | .add a, r, _ => [(0, r.num + a)]
+  | .set a, _, _ => [(0, a)]
+  | .ensure k c, r, cell => if r.has k then cell else (k, c) :: cell.without k
+  | .del k, r, cell => if r.has k then cell.without k else cell
+  | .clear, _, _ => []
+  | .ins k c, _, cell => (k, c) :: cell.without k
+  | .rem k, _, cell => cell.without k
+  | .keep, _, cell => cell
+
+/-- updates that ignore what the thread read earlier -/
+def Upd.blind : Upd → Bool
+  | .add _ => false
+  | .ensure _ _ => false
+  | .del _ => false
+  | _ => true
+
+theorem apU_blind : ∀ u, Upd.blind u = true → ∀ a b c, apU u a c = apU u b c := by
+  intro u hu a b c
+  cases u <;> first | rfl | cases hu
+
 end PromVerif.Model.Conc
